@@ -276,15 +276,18 @@ func bodyGatedFamily(k cfg) func(c *drv.Ctx) {
 				vrt.WaitIdle()
 			}
 		}
-		parked := g.Was
+		parked := g.Was()
 		g.Open()
 		wg.Wait()
 		vrt.Point("fs:end-of-workload")
 		vrt.WaitIdle()
 		vrt.Point("fs:quiescent")
 		capture = false
-		if parked {
-			c.Count("executions_in_which_the_gate_parked_a_background_thread", 1)
+		if parked > 0 {
+			c.Count("executions_in_which_a_gate_parked_a_background_thread", 1)
+		}
+		if parked > 1 {
+			c.Count("executions_in_which_persister_and_merger_were_both_parked", 1)
 		}
 		c.Observe(fmt.Sprintf("wl=%s gate=%s parked=%v images=%d", k.word, spec.Label, parked, bucket(len(ed.images))))
 		c.Count("family_words_x_gates_run", 1)
